@@ -5,7 +5,7 @@ Flat memory with concrete object base addresses; bytes are ints, z3 8-bit terms,
 Feasibility of every symbolic branch is decided by z3; assertions are checked by z3 on every path.
 """
 import sys, bisect, time, struct
-sys.path.insert(0, '/tmp/probe')
+sys.path.insert(0, __import__('os').path.dirname(__import__('os').path.abspath(__file__)))
 import ir2c
 from ir2c import TInt, TPtr, TArr, TStruct, TNamed, TFloat, TVoid, TFunc, TOther
 import z3
@@ -65,6 +65,7 @@ class State:
         s.caught = []
         s.trace = []
         s.steps = 0
+        s.nd_log = []; s.notes = []
     def fork(s):
         n = State.__new__(State)
         n.mem = dict(s.mem); n.objs = dict(s.objs); n.bases = list(s.bases); n.next_base = s.next_base
@@ -80,6 +81,8 @@ class State:
         if hasattr(s, 'errno'): n.errno = s.errno
         if hasattr(s, 'now'): n.now = s.now
         if hasattr(s, 'inflight'): n.inflight = s.inflight
+        n.nd_log = list(s.nd_log); n.notes = list(s.notes)
+        n.mdl = getattr(s, 'mdl', None); n.mdl_n = getattr(s, 'mdl_n', -1); n.mdl_alt = getattr(s, 'mdl_alt', None); n.mdl_alt_n = getattr(s, 'mdl_alt_n', -1)
         n.pc = list(s.pc); n.exc = s.exc; n.caught = list(s.caught); n.trace = list(s.trace); n.steps = s.steps
         return n
 
@@ -96,7 +99,8 @@ class Engine:
         s.stats = {'paths': 0, 'forks': 0, 'solver_calls': 0, 'solver_time': 0.0, 'instrs': 0}
         s.nsym = 0
         s.violations = []
-        s.max_steps = 2000000
+        s.fn_seen = set(); s.models_used = set()
+        s.max_steps = 2000000; s.max_paths = 200000; s.deadline = time.time() + 3600; s.sample = None; s.reached = set()
         s.races = {}; s.racy_points = set()
         s.all_syms = []
         s.sweep_mode = None; s.sweep_tab = {}; s.sweep_reps = []; s.sweep_assign = None
@@ -104,15 +108,44 @@ class Engine:
 
     # ---------- solver
     def feasible(s, st, cond):
+        """is pc /\ cond satisfiable?  Decided by z3; a satisfying model is cached on the state and reused as a witness
+        (a cached model that already satisfies cond proves satisfiability without a new query)."""
+        if not isinstance(cond, z3.ExprRef): return bool(cond)
+        cond = z3.simplify(cond)
+        if z3.is_true(cond): return True
+        if z3.is_false(cond): return False
+        mdl = getattr(st, 'mdl', None)
+        if mdl is not None and len(st.pc) == getattr(st, 'mdl_n', -1):
+            try:
+                if z3.is_true(mdl.eval(cond, model_completion=True)):
+                    s.stats['cache_hits'] = s.stats.get('cache_hits', 0) + 1
+                    return True
+            except z3.Z3Exception: pass
         t = time.time()
         s.solver.push()
         for c in st.pc: s.solver.add(c)
         s.solver.add(cond)
         r = s.solver.check()
+        if r == z3.sat:
+            st.mdl_alt = s.solver.model()     # model of pc /\ cond: becomes the state's model if cond is added to pc next
+            st.mdl_alt_cond = cond
         s.solver.pop()
         s.stats['solver_calls'] += 1; s.stats['solver_time'] += time.time() - t
         if r == z3.unknown: raise Unsupported('solver unknown')
         return r == z3.sat
+    def add_pc(s, st, cond):
+        """append cond to the path condition (append-only per state), keeping a valid cached model when one is known"""
+        keep = None
+        n = len(st.pc)
+        for mdl, mn in ((getattr(st, 'mdl', None), getattr(st, 'mdl_n', -1)), (getattr(st, 'mdl_alt', None), getattr(st, 'mdl_alt_n', -1))):
+            if mdl is not None and mn == n:
+                try:
+                    if z3.is_true(mdl.eval(cond, model_completion=True)): keep = mdl; break
+                except z3.Z3Exception: pass
+        st.pc.append(cond)
+        if keep is not None: st.mdl = keep; st.mdl_n = n + 1
+        else: st.mdl = None; st.mdl_n = -1
+        st.mdl_alt = None; st.mdl_alt_n = -1
     def model(s, st, extra=None):
         s.solver.push()
         for c in st.pc: s.solver.add(c)
@@ -120,6 +153,7 @@ class Engine:
         r = s.solver.check()
         mdl = s.solver.model() if r == z3.sat else None
         s.solver.pop()
+        if mdl is not None and extra is None: st.mdl = mdl; st.mdl_n = len(st.pc)
         return mdl
 
     # ---------- memory
@@ -430,12 +464,14 @@ class Engine:
         if f is None or name[1:] in s.models:
             mdl = s.models.get(name[1:])
             if mdl is None: raise Unsupported('unmodelled external ' + name)
+            s.models_used.add(name[1:])
             r = mdl(s, st, args)
             if r is NORESULT: return
             if st.exc is not None and res_reg is not None: return
             if res_reg is not None and st.stack: st.stack[-1].regs[res_reg] = r
             st.last_ret = r
             return
+        s.fn_seen.add(f.name)
         fr = Frame(f); fr.ret_to = res_reg
         for (t, nm, info), a in zip(f.params, args):
             if nm: fr.regs[nm] = a
@@ -447,21 +483,46 @@ class Engine:
         s.run_ctors(st0)
         work = [st0]
         s.push_call(st0, entry, [], None)
-        results = []
+        s.reached = set()
         while work:
+            if s.stats['paths'] >= s.max_paths: raise Unsupported('path limit %d' % s.max_paths)
+            if time.time() > s.deadline: raise Unsupported('time budget exhausted')
             st = work.pop()
             try:
-                forks = s.run_until(st, 0, work)
+                s.run_until(st, 0, work)
                 s.stats['paths'] += 1
                 if st.exc is not None:
-                    s.violations.append(('uncaught exception escapes entry point', st))
+                    s.record_violation('uncaught exception escapes entry point: %s' % s.exc_name(st, st.exc), st)
+                else:
+                    s.path_end(st)
             except Violation as e:
                 s.stats['paths'] += 1
-                s.violations.append((str(e), st))
+                s.record_violation(str(e), st)
             except PathEnd:
                 s.stats['paths'] += 1
         return s.violations
-
+    def path_end(s, st):
+        if s.sample is None and st.nd_log:
+            mdl = s.model(st)
+            if mdl is not None:
+                s.sample = [mdl.eval(v, model_completion=True).as_long() for v in st.nd_log]
+    def exc_name(s, st, exc):
+        obj, ty = exc
+        if isinstance(ty, tuple): return 'std::' + ty[1]
+        for nm, a in s.gaddr.items():
+            if a == ty: return nm
+        return hex(ty) if isinstance(ty, int) else str(ty)
+    def record_violation(s, msg, st):
+        mdl = s.model(st)
+        vals = None
+        if mdl is not None:
+            vals = [mdl.eval(v, model_completion=True).as_long() for v in st.nd_log]
+        stack = []
+        for th in st.threads:
+            stack.append([f.fn.name for f in th.stack][-8:])
+        where = getattr(st, 'exc_where', None)
+        s.violations.append({'msg': msg, 'values': vals, 'schedule': list(st.sched_log), 'stack': stack[st.cur] if st.cur < len(stack) else [],
+                             'exc_where': where, 'notes': list(st.notes), 'model_unavailable': mdl is None})
     def track(s, st, addr, is_write, fr, work):
         if len(st.threads) < 2 or is_sym(addr): return
         o = s.find_obj(st, addr)
@@ -534,7 +595,7 @@ class Engine:
             except ForkOn as fo:
                 # a symbolic address/size has several feasible values: fork on (expr == value) and retry the instruction
                 fr.ip -= 1
-                other = st.fork(); other.pc.append(z3.Not(fo.cond)); st.pc.append(fo.cond)
+                other = st.fork(); s.add_pc(other, z3.Not(fo.cond)); s.add_pc(st, fo.cond)
                 if work is None: raise Unsupported('fork inside helper run')
                 work.append(other); s.stats['forks'] += 1
 
@@ -611,10 +672,10 @@ class Engine:
         if ta and tb:
             s.stats['forks'] += 1
             other = st.fork()
-            other.pc.append(z3.Not(c)); s.jump(other, other.stack[-1], b)
+            s.add_pc(other, z3.Not(c)); s.jump(other, other.stack[-1], b)
             if work is None: raise Unsupported('fork inside helper run')
             work.append(other)
-            st.pc.append(c); s.jump(st, fr, a)
+            s.add_pc(st, c); s.jump(st, fr, a)
         elif ta: s.jump(st, fr, a)
         elif tb: s.jump(st, fr, b)
         else: raise PathEnd()
@@ -663,8 +724,8 @@ class Engine:
                 if s.feasible(st, dflt): targets.append((dflt, ins.default))
                 if not targets: raise PathEnd()
                 for c, l in targets[1:]:
-                    o = st.fork(); o.pc.append(c); s.jump(o, o.stack[-1], l); work.append(o); s.stats['forks'] += 1
-                st.pc.append(targets[0][0]); s.jump(st, fr, targets[0][1])
+                    o = st.fork(); s.add_pc(o, c); s.jump(o, o.stack[-1], l); work.append(o); s.stats['forks'] += 1
+                s.add_pc(st, targets[0][0]); s.jump(st, fr, targets[0][1])
             else:
                 dest = ins.default
                 for cv, cl in ins.cases:
@@ -763,10 +824,10 @@ class Engine:
             except NeedFork as nf:
                 # a model met a symbolic comparison that can go both ways: fork *before* the call and retry it
                 other = snap.fork()
-                for k in ('mem', 'objs', 'bases', 'next_base', 'threads', 'cur', 'preempt', 'cv', 'sched_log', 'er', 'ctx', 'pc', 'exc', 'caught', 'trace', 'steps'):
+                for k in ('mem', 'objs', 'bases', 'next_base', 'threads', 'cur', 'preempt', 'cv', 'sched_log', 'er', 'ctx', 'pc', 'exc', 'caught', 'trace', 'steps', 'nd_log', 'notes', 'mdl', 'mdl_n', 'mdl_alt', 'mdl_alt_n'):
                     setattr(st, k, getattr(snap, k))
                 st.stack[-1].ip -= 1; other.stack[-1].ip -= 1
-                st.pc.append(nf.cond); other.pc.append(z3.Not(nf.cond))
+                s.add_pc(st, nf.cond); s.add_pc(other, z3.Not(nf.cond))
                 if work is None: raise Unsupported('fork inside helper run')
                 work.append(other); s.stats['forks'] += 1
                 return
@@ -816,7 +877,8 @@ class Engine:
 # harness API + models
 # ---------------------------------------------------------------------------
 def h_nondet(bits):
-    def f(e, st, fr, args, work): return e.new_sym(bits)
+    def f(e, st, fr, args, work):
+        v = e.new_sym(bits, 'nd'); st.nd_log.append(v); return v
     return f
 def h_assume(e, st, fr, args, work):
     c = args[0]
@@ -825,20 +887,27 @@ def h_assume(e, st, fr, args, work):
         return None
     cc = (c == 1) if c.size() == 1 else (c != 0)
     if not e.feasible(st, cc): raise PathEnd()
-    st.pc.append(cc); return None
+    e.add_pc(st, cc); return None
 def h_assert(e, st, fr, args, work):
     c = args[0]
     msg = bytes(b for b in iter(lambda it=iter(range(200)): st.mem.get(args[1] + next(it), 0), 0) if isinstance(b, int)).decode(errors='replace')
+    if msg.startswith('WITNESS:'):
+        e.reached.add(msg[8:]); return None
+    e.stats['asserts'] = e.stats.get('asserts', 0) + 1
     if c is UNDEF: raise Violation('assertion on uninitialised value: ' + msg)
     if not is_sym(c):
         if not (c & 1): raise Violation('assertion failed: ' + msg)
         return None
     bad = (c == 0) if c.size() == 1 else (c == 0)
     if e.feasible(st, bad):
-        st.pc.append(bad)
+        e.add_pc(st, bad)
         raise Violation('assertion failed: ' + msg)
     return None
-HARNESS_API = {'nondet_bool': h_nondet(1), 'nondet_uchar': h_nondet(8), 'nondet_ulong': h_nondet(64), 'nondet_uint': h_nondet(32),
+def h_note(e, st, fr, args, work):
+    tag = bytes(b for b in iter(lambda it=iter(range(200)): st.mem.get(args[0] + next(it), 0), 0) if isinstance(b, int)).decode(errors='replace')
+    st.notes.append((tag, args[1] if not is_sym(args[1]) else str(args[1]))); return None
+HARNESS_API = {'vp_false': lambda e, st, fr, a, w: 0, 'vp_note': h_note, 'nondet_ushort': h_nondet(16),
+               'nondet_bool': h_nondet(1), 'nondet_uchar': h_nondet(8), 'nondet_ulong': h_nondet(64), 'nondet_uint': h_nondet(32),
                '__CPROVER_assume': h_assume, '__CPROVER_assert': h_assert,
                'vp_global_ctors': lambda e, st, fr, a, w: None,
                'vp_sweep_record': lambda e, st, fr, a, w: setattr(e, 'sweep_mode', 'record'),
@@ -854,7 +923,7 @@ STD_EXC_BASES = {
 }
 def throw_std(kind):
     def f(e, st, args):
-        st.exc = (0, ('std', kind)); return None
+        st.exc = (0, ('std', kind)); st.exc_where = [f.fn.name for f in st.stack][-4:]; return None
     return f
 
 NPOS = (1 << 64) - 1
@@ -1018,7 +1087,7 @@ def errno_addr(e, st):
     return st.errno
 Engine.errno_addr = errno_addr
 def m_throw(e, st, args):
-    st.exc = (args[0], args[1]); return None
+    st.exc = (args[0], args[1]); st.exc_where = [f.fn.name for f in st.stack][-4:]; return None
 def m_begin_catch(e, st, args):
     st.caught.append(st.inflight); return args[0]
 def m_end_catch(e, st, args):
@@ -1185,36 +1254,58 @@ def m_swapcontext(e, st, args):
 def m_gettimeofday(e, st, args):
     tv = args[0]
     sec = e.new_sym(64, 'tv_sec'); usec = e.new_sym(64, 'tv_usec')
-    st.pc.append(z3.ULT(sec, 4000000000)); st.pc.append(z3.ULT(usec, 1000000))
+    e.add_pc(st, z3.ULT(sec, 4000000000)); e.add_pc(st, z3.ULT(usec, 1000000))
     last = getattr(st, 'last_sec', None)
-    if last is not None: st.pc.append(z3.UGE(sec, last))
+    if last is not None: e.add_pc(st, z3.UGE(sec, last))
     st.last_sec = sec
     e.store(st, tv, I64, sec); e.store(st, tv + 8, I64, usec); return 0
 BUILTIN_MODELS.update({'gettimeofday': m_gettimeofday})
 BUILTIN_MODELS.update({'getcontext': m_getcontext, 'makecontext': m_makecontext, 'swapcontext': m_swapcontext})
 
 def main():
-    ll, entry = sys.argv[1], sys.argv[2]
+    import argparse, json, os, resource
+    ap = argparse.ArgumentParser()
+    ap.add_argument('ll'); ap.add_argument('entry'); ap.add_argument('--json', default=None)
+    ap.add_argument('--preempt', type=int, default=int(os.environ.get('VP_P', '1')))
+    ap.add_argument('--timeouts', type=int, default=int(os.environ.get('VP_T', '1')))
+    ap.add_argument('--max-paths', type=int, default=200000)
+    ap.add_argument('--max-steps', type=int, default=2000000)
+    ap.add_argument('--budget', type=float, default=3600.0)
+    ap.add_argument('--stop-first', action='store_true')
+    a = ap.parse_args()
     t0 = time.time()
-    m = ir2c.parse_module(open(ll).read())
-    e = Engine(m)
+    m = ir2c.parse_module(open(a.ll).read())
+    def mk():
+        e = Engine(m); e.max_preempt = a.preempt; e.max_timeouts = a.timeouts; e.max_paths = a.max_paths; e.max_steps = a.max_steps
+        e.deadline = t0 + a.budget; return e
+    e = mk()
+    out = {'entry': a.entry, 'status': 'ok', 'passes': 1}
+    races = []
     try:
-        v = e.explore('@' + entry)
+        v = e.explore('@' + a.entry)
         if e.races:
-            print('lockset race candidates (pass 1):')
-            for a, (fn, tid, w, base) in sorted(e.races.items()):
-                print('   addr 0x%x (object 0x%x +%d) %s by thread %d in %s' % (a, base, a - base, 'write' if w else 'read', tid, fn[:70]))
-            print('pass 1 stats', e.stats, 'violations', len(v))
-            racy = set(e.races)
-            e = Engine(m); e.racy_points = racy
-            v = e.explore('@' + entry)
+            for addr, (fn, tid, w, base) in sorted(e.races.items()):
+                races.append({'addr': addr, 'object': base, 'offset': addr - base, 'kind': 'write' if w else 'read', 'thread': tid, 'fn': fn})
+            racy = set(e.races); st1 = dict(e.stats); reached1 = set(e.reached)
+            e2 = mk(); e2.racy_points = racy
+            v = e2.explore('@' + a.entry)
+            e2.reached |= reached1
+            for k in ('paths', 'forks', 'solver_calls', 'solver_time', 'instrs'): e2.stats[k] += st1.get(k, 0)
+            e = e2; out['passes'] = 2
     except Unsupported as u:
-        print('INCONCLUSIVE:', u); print(e.stats); sys.exit(2)
-    print('stats', e.stats, 'wall %.1fs' % (time.time() - t0))
-    for msg, st in v:
-        mdl = e.model(st)
-        print('VIOLATION:', msg, ' model:', mdl, ' schedule:', st.sched_log)
-    print('violations:', len(v))
+        out['status'] = 'inconclusive'; out['reason'] = str(u)
+    except RecursionError as u:
+        out['status'] = 'inconclusive'; out['reason'] = 'python recursion limit'
+    out['stats'] = e.stats; out['violations'] = e.violations; out['races'] = races; out['reached'] = sorted(e.reached)
+    out['sample'] = e.sample; out['wall_s'] = time.time() - t0
+    out['functions'] = sorted(e.fn_seen)[:400]; out['n_functions'] = len(e.fn_seen)
+    out['models_used'] = sorted(e.models_used)
+    out['peak_rss_mb'] = resource.getrusage(resource.RUSAGE_SELF).ru_maxrss // 1024
+    txt = json.dumps(out, indent=1, default=str)
+    if a.json: open(a.json, 'w').write(txt)
+    else: print(txt)
+    sys.exit(0 if out['status'] == 'ok' and not e.violations and not races else (2 if out['status'] != 'ok' else 1))
 
 if __name__ == '__main__':
+    sys.setrecursionlimit(20000)
     main()
